@@ -38,9 +38,11 @@ use verif_harness::*;
 #[derive(Default)]
 struct H2Record {
     epoch: usize,
-    blocks: Vec<HL>, // decoded HEADERS blocks, in order (request head, then trailers)
+    blocks: Vec<HL>, // decoded HEADERS blocks, in order (request heads and trailers)
     data: usize,
     complete: usize,
+    /// per backend stream: (stream id, :path, DATA bytes, END_STREAM seen)
+    streams: Vec<(u32, Vec<u8>, usize, bool)>,
 }
 
 fn h2c_recording_backend(listener: TcpListener, rec: Arc<Mutex<H2Record>>) {
@@ -83,6 +85,10 @@ fn h2c_recording_backend(listener: TcpListener, rec: Arc<Mutex<H2Record>>) {
                                 {
                                     let mut g = rec.lock().unwrap();
                                     if g.epoch == my_epoch {
+                                        if !g.streams.iter().any(|x| x.0 == f.sid) {
+                                            let path = l.iter().find(|(k, _)| k == b":path").map(|(_, v)| v.clone()).unwrap_or_default();
+                                            g.streams.push((f.sid, path, 0, false));
+                                        }
                                         g.blocks.push(l);
                                     }
                                 }
@@ -92,6 +98,9 @@ fn h2c_recording_backend(listener: TcpListener, rec: Arc<Mutex<H2Record>>) {
                                     let mut g = rec.lock().unwrap();
                                     if g.epoch == my_epoch {
                                         g.complete += 1;
+                                        if let Some(x) = g.streams.iter_mut().find(|x| x.0 == f.sid) {
+                                            x.3 = true;
+                                        }
                                     }
                                 }
                                 let mut resp = frame(T_HEADERS, 4, f.sid, &[0x88]);
@@ -104,6 +113,9 @@ fn h2c_recording_backend(listener: TcpListener, rec: Arc<Mutex<H2Record>>) {
                                 let mut g = rec.lock().unwrap();
                                 if g.epoch == my_epoch {
                                     g.data += f.payload.len();
+                                    if let Some(x) = g.streams.iter_mut().find(|x| x.0 == f.sid) {
+                                        x.2 += f.payload.len();
+                                    }
                                 }
                             }
                             if !f.payload.is_empty() {
@@ -118,6 +130,9 @@ fn h2c_recording_backend(listener: TcpListener, rec: Arc<Mutex<H2Record>>) {
                                     let mut g = rec.lock().unwrap();
                                     if g.epoch == my_epoch {
                                         g.complete += 1;
+                                        if let Some(x) = g.streams.iter_mut().find(|x| x.0 == f.sid) {
+                                            x.3 = true;
+                                        }
                                     }
                                 }
                                 let mut resp = frame(T_HEADERS, 4, f.sid, &[0x88]);
@@ -153,8 +168,10 @@ fn pairs(a: &[Tok]) -> HL {
 
 const CONN_SPECIFIC: [&[u8]; 8] = [b"connection", b"proxy-connection", b"transfer-encoding", b"upgrade", b"keep-alive", b"host", b"http2-settings", b"trailer"];
 
-fn judge_h2c(r: &H2Record, out: &mut Out) {
-    for (i, l) in r.blocks.iter().enumerate() {
+fn judge_h2c(r: &H2Record, nstreams: usize, out: &mut Out) {
+    for l in r.blocks.iter() {
+        // a block with pseudo-headers is a request head, one without is a trailer section
+        let i = if l.iter().any(|(k, _)| k.starts_with(b":")) { 0 } else { 1 };
         for (k, v) in l {
             if k.iter().any(|c| c.is_ascii_uppercase()) {
                 out.viol("bb-h2-uppercase", &String::from_utf8_lossy(k));
@@ -191,8 +208,8 @@ fn judge_h2c(r: &H2Record, out: &mut Out) {
             }
         }
     }
-    if r.complete > 1 {
-        out.viol("bb-h2-count", "more than one request reached the h2c backend for one stream");
+    if r.streams.len() > nstreams {
+        out.viol("bb-h2-count", &format!("{} requests reached the h2c backend for {} stream(s)", r.streams.len(), nstreams));
     }
 }
 
@@ -235,25 +252,34 @@ fn main() {
     for case in &cases {
         let mut out = Out::default();
         let mut frames: Vec<u8> = vec![];
+        let mut sid: u32 = 1;
+        let mut sids: Vec<u32> = vec![];
         if !ready {
             out.note("invalid-case: the worker never answered the probe");
         }
         for op in &case.ops {
             let a = &op.args;
             match op.name.as_str() {
+                "sid" => {
+                    sid = a[0].n() as u32;
+                    out.obs(&[]);
+                }
                 "hdr" => {
                     let es = a[0].n() == 1;
-                    frames.extend(frame(T_HEADERS, if es { 0x5 } else { 0x4 }, 1, &block_of(&pairs(&a[1..]))));
+                    if !sids.contains(&sid) {
+                        sids.push(sid);
+                    }
+                    frames.extend(frame(T_HEADERS, if es { 0x5 } else { 0x4 }, sid, &block_of(&pairs(&a[1..]))));
                     out.obs(&[]);
                 }
                 "data" => {
                     let n = a[0].n() as usize;
-                    frames.extend(frame(T_DATA, if a[1].n() == 1 { 1 } else { 0 }, 1, &vec![b'x'; n]));
+                    frames.extend(frame(T_DATA, if a[1].n() == 1 { 1 } else { 0 }, sid, &vec![b'x'; n]));
                     out.obs(&[]);
                 }
                 "trl" => {
                     // a fresh encoder is fine: no dynamic-table references are emitted for literals never indexed before
-                    frames.extend(frame(T_HEADERS, 0x5, 1, &block_of_cont(&pairs(a))));
+                    frames.extend(frame(T_HEADERS, 0x5, sid, &block_of_cont(&pairs(a))));
                     out.obs(&[]);
                 }
                 "go" => {
@@ -264,7 +290,7 @@ fn main() {
                         *g = H2Record::default();
                         g.epoch = e;
                     }
-                    let (kind, code) = run_stream(front, &frames);
+                    let (outcomes, goaway) = run_conn(front, &frames, &sids);
                     std::thread::sleep(Duration::from_millis(40));
                     let r = take_case(&rec);
                     let r2 = {
@@ -274,12 +300,39 @@ fn main() {
                         g.epoch = e;
                         r
                     };
-                    let body = r.requests.first().map(|q| q.body_len).unwrap_or(0);
-                    out.obs(&[ts("client"), ts(kind), tn(code), ts("seen"), tn(r.requests.len()), tn(body), ts("h2seen"), tn(r2.complete), tn(r2.data)]);
+                    let mut t = vec![ts("client"), tn(outcomes.len())];
+                    for (sd, kind, code) in &outcomes {
+                        t.push(tn(*sd));
+                        t.push(ts(kind));
+                        t.push(tn(*code));
+                    }
+                    t.push(ts("goaway"));
+                    t.push(tbool(goaway));
+                    t.push(ts("seen"));
+                    t.push(tn(r.requests.len()));
+                    for q in &r.requests {
+                        t.push(tb(&q.target));
+                        t.push(tn(q.body_len));
+                    }
+                    t.push(ts("h2seen"));
+                    t.push(tn(r2.streams.len()));
+                    for x in &r2.streams {
+                        t.push(tb(&x.1));
+                        t.push(tn(x.2));
+                        t.push(tbool(x.3));
+                    }
+                    out.obs(&t);
                     // ---- oracle
-                    judge_proto(&r, front, &[], b"https", &mut out);
-                    if r.requests.len() > 1 {
-                        out.viol("bb-h2-count", &format!("{} requests reached the HTTP/1.1 backend for one stream", r.requests.len()));
+                    judge_proto(&r, front, &[], b"https", false, &mut out);
+                    if r.requests.len() > sids.len() {
+                        out.viol("bb-h2-count", &format!("{} requests reached the HTTP/1.1 backend for {} stream(s)", r.requests.len(), sids.len()));
+                    }
+                    let mut targets: Vec<&Vec<u8>> = r.requests.iter().map(|q| &q.target).collect();
+                    targets.sort();
+                    let nt = targets.len();
+                    targets.dedup();
+                    if targets.len() != nt {
+                        out.viol("bb-h2-count", "the HTTP/1.1 backend read two requests for the same stream (same target)");
                     }
                     for q in &r.requests {
                         let cls = values(&q.headers, b"content-length");
@@ -287,8 +340,10 @@ fn main() {
                             out.viol("bb-h2-dup-cl", "two Content-Length lines reached the backend");
                         }
                     }
-                    judge_h2c(&r2, &mut out);
+                    judge_h2c(&r2, sids.len(), &mut out);
                     frames.clear();
+                    sids.clear();
+                    sid = 1;
                 }
                 _ => out.obs(&[ts("badop")]),
             }
@@ -310,33 +365,53 @@ fn block_of_cont(hs: &HL) -> Vec<u8> {
     block_of(hs)
 }
 
-/// -> ("answered", status) | ("refused", h2 error code) | ("silent", 0)
-fn run_stream(front: SocketAddr, frames: &[u8]) -> (&'static str, u32) {
-    let Some(mut p) = Peer::connect(front) else { return ("silent", 1) };
+/// per stream: ("answered", 200) | ("refused", status or h2 error code) | ("silent", 0); and whether a GOAWAY was seen
+fn run_conn(front: SocketAddr, frames: &[u8], sids: &[u32]) -> (Vec<(u32, &'static str, u32)>, bool) {
+    let silent = |c: u32| -> (Vec<(u32, &'static str, u32)>, bool) { (sids.iter().map(|s| (*s, "silent", c)).collect(), false) };
+    let Some(mut p) = Peer::connect(front) else { return silent(1) };
     if !p.handshake(&[]) {
-        return ("silent", 2);
+        return silent(2);
     }
     p.send(frames);
+    let want: Vec<u32> = sids.to_vec();
     let fr = p.read_until(Duration::from_millis(5000), |f| {
-        f.iter().any(|x| (x.t == T_HEADERS && x.sid == 1) || (x.t == T_RST && x.sid == 1) || x.t == T_GOAWAY)
+        f.iter().any(|x| x.t == T_GOAWAY) || want.iter().all(|s| f.iter().any(|x| x.sid == *s && (x.t == T_HEADERS || x.t == T_RST)))
     });
+    let goaway = fr.iter().any(|x| x.t == T_GOAWAY);
+    let mut dec = loona_hpack::Decoder::new();
+    let mut out = vec![];
+    // decode response HEADERS in arrival order (one HPACK context per connection)
+    let mut status: Vec<(u32, u32)> = vec![];
     for x in &fr {
-        if x.t == T_HEADERS && x.sid == 1 {
-            let mut dec = loona_hpack::Decoder::new();
-            let mut status = 0u32;
+        if x.t == T_HEADERS {
+            let mut st = 0u32;
             let _ = dec.decode_with_cb(&x.payload, |k, v| {
                 if &k[..] == b":status" {
-                    status = std::str::from_utf8(&v).ok().and_then(|s| s.parse().ok()).unwrap_or(0);
+                    st = std::str::from_utf8(&v).ok().and_then(|s| s.parse().ok()).unwrap_or(0);
                 }
             });
-            return if status == 200 { ("answered", 200) } else { ("refused", status) };
-        }
-        if (x.t == T_RST && x.sid == 1) || x.t == T_GOAWAY {
-            return ("refused", x.code().unwrap_or(0));
+            if !status.iter().any(|(s, _)| *s == x.sid) {
+                status.push((x.sid, st));
+            }
         }
     }
-    if p.closed {
-        return ("refused", 999);
+    for s in sids {
+        let first = fr.iter().find(|x| x.sid == *s && (x.t == T_HEADERS || x.t == T_RST));
+        match first {
+            Some(x) if x.t == T_HEADERS => {
+                let st = status.iter().find(|(q, _)| q == s).map(|(_, v)| *v).unwrap_or(0);
+                out.push((*s, if st == 200 { "answered" } else { "refused" }, st));
+            }
+            Some(x) => out.push((*s, "refused", x.code().unwrap_or(0))),
+            None => {
+                if goaway || p.closed {
+                    let code = fr.iter().find(|x| x.t == T_GOAWAY).and_then(|x| x.code()).unwrap_or(999);
+                    out.push((*s, "refused", code));
+                } else {
+                    out.push((*s, "silent", 0));
+                }
+            }
+        }
     }
-    ("silent", 0)
+    (out, goaway)
 }
